@@ -1552,7 +1552,8 @@ class TransactionBuilder:
                 ) and candidate_inputs:
                     candidate = candidate_inputs.pop()
                     if (
-                        not candidate.output.address.address_type.name.startswith(
+                        candidate not in self.collaterals
+                        and not candidate.output.address.address_type.name.startswith(
                             "SCRIPT"
                         )
                         and candidate.output.amount.coin > 2000000
